@@ -441,7 +441,8 @@ func (c DegreeChordConverter) Convert(v *ast.Chord) (*input.Chord, error) {
 func (DegreeChordConverter) convertDegree(v *ast.ChordDegree) (note.Degree, error) {
 	s := v.Degree.Value()
 	if x := v.Accidental; x != nil {
-		s += x.Value()
+		// normalize the spelling of the accidental (#, b or the unicode signs)
+		s += op.NewAccidental(x.Value()).String()
 	}
 	d, err := note.ParseDegree(s)
 	if err != nil {
